@@ -66,6 +66,15 @@ func (l *Lexer) readChar() {
 	}
 }
 
+// atEOF reports whether we've read past the last character of our input.
+//
+// The end of the input is presented as a null character, but a null
+// character inside the input - in a string, or a comment - is not the
+// end of it.
+func (l *Lexer) atEOF() bool {
+	return l.position >= len(l.characters)
+}
+
 // NextToken reads and returns the next token, skipping any intervening
 // white space, and swallowing any comments, in the process.
 func (l *Lexer) NextToken() token.Token {
@@ -373,7 +382,7 @@ func (l *Lexer) skipWhitespace() {
 
 // skip a comment (until the end of the line).
 func (l *Lexer) skipComment() {
-	for l.ch != '\n' && l.ch != rune(0) {
+	for l.ch != '\n' && !l.atEOF() {
 		l.readChar()
 	}
 	l.skipWhitespace()
@@ -426,7 +435,7 @@ func (l *Lexer) readString(delim rune) (string, error) {
 	for {
 		l.readChar()
 
-		if l.ch == rune(0) {
+		if l.atEOF() {
 			return "", fmt.Errorf("unterminated string")
 		}
 		if l.ch == delim {
@@ -446,7 +455,7 @@ func (l *Lexer) readString(delim rune) (string, error) {
 
 			l.readChar()
 
-			if l.ch == rune(0) {
+			if l.atEOF() {
 				return "", errors.New("unterminated string")
 			}
 			if l.ch == rune('n') {
@@ -479,7 +488,7 @@ func (l *Lexer) readRegexp() (string, error) {
 	for {
 		l.readChar()
 
-		if l.ch == rune(0) {
+		if l.atEOF() {
 			return "", fmt.Errorf("unterminated regular expression")
 		}
 		if l.ch == '/' {
